@@ -66,3 +66,384 @@ Proof.
   - intros (x & Hx & E). apply Nat.eqb_eq in E. now subst.
   - intros H. exists k. split; [exact H|apply Nat.eqb_refl].
 Qed.
+
+Lemma NoDup_app_snoc {A} (l : list A) x : NoDup l -> ~ In x l -> NoDup (l ++ [x]).
+Proof.
+  intros Hl Hx. induction Hl as [|y l Hy Hl IH]; cbn; [constructor; [intros []|constructor]|].
+  constructor.
+  - rewrite in_app_iff. cbn. intros [H|[H|[]]]; [contradiction|subst; apply Hx; now left].
+  - apply IH. intros H; apply Hx; now right.
+Qed.
+
+Section Safe.
+  Variables (sk : tskel) (reqs : list req).
+  Hypothesis Hsafe : tx_safeb sk = true.
+  (* requests that expect a response carry pairwise different transaction ids *)
+  Hypothesis Hdist : forall k k', needs (rq reqs k) = true -> needs (rq reqs k') = true ->
+                                  q_tid (rq reqs k) = q_tid (rq reqs k') -> k = k'.
+  Notation Rq k := (rq reqs k).
+  Notation keys s := (map fst (t_log s)).
+
+  (* where the writer is in WritePacket(k) *)
+  Definition wdoneb (k pc : nat) : bool := if needs (Rq k) then (6 <=? pc)%nat else (2 <=? pc)%nat.
+  Definition WF (s : tstate) (cur : option nat) (pc : nat) (todo : list nat) : Prop :=
+    match cur with
+    | None => todo = []
+    | Some k =>
+        (In k (t_reg s) <-> needs (Rq k) && (4 <=? pc)%nat = true) /\
+        (In k (t_sent s) <-> negb (q_fail (Rq k)) && wdoneb k pc = true) /\
+        (In k (t_failed s) <-> q_fail (Rq k) && wdoneb k pc = true) /\
+        (In k (t_clean s) <-> needs (Rq k) && q_fail (Rq k) && (9 <=? pc)%nat = true) /\
+        ~ In k todo
+    end /\
+    NoDup todo /\
+    (forall k', In k' todo -> ~ In k' (t_reg s) /\ ~ In k' (t_sent s) /\ ~ In k' (t_failed s) /\ ~ In k' (t_clean s)).
+
+  Definition RF (s : tstate) (rpc : nat) (held : option nat) (found : option Z) : Prop :=
+    (rpc <= 6)%nat /\
+    ((1 <= rpc <= 3)%nat -> exists k, held = Some k /\ In k (t_answered s) /\ ~ In k (t_queue s) /\ ~ In k (keys s)) /\
+    ((4 <= rpc <= 5)%nat -> exists k, held = Some k /\ found = Some (q_name (Rq k)) /\ In k (keys s) /\ ~ In k (t_del s)).
+
+  Record Inv2 (s : tstate) : Prop := {
+    i_w : exists cur pc todo, nth_error (t_ths s) 0 = Some (TWriter cur pc todo) /\ WF s cur pc todo;
+    i_r : exists rpc held found, nth_error (t_ths s) 1 = Some (TReader rpc held found) /\ RF s rpc held found;
+    i_p : forall i t, (2 <= i)%nat -> nth_error (t_ths s) i = Some t -> exists k d, t = TPeer k d;
+    i_sent : forall k, In k (t_sent s) -> q_fail (Rq k) = false /\ (needs (Rq k) = true -> In k (t_reg s));
+    i_clean : forall k, In k (t_clean s) -> q_fail (Rq k) = true;
+    i_ans : forall k, In k (t_answered s) -> In k (t_sent s) /\ needs (Rq k) = true;
+    i_q : NoDup (t_queue s);
+    i_l : NoDup (keys s);
+    i_qa : forall k, In k (t_queue s) -> In k (t_answered s) /\ ~ In k (keys s);
+    i_la : forall k, In k (keys s) -> In k (t_answered s);
+    i_del : forall k, In k (t_del s) -> In k (keys s);
+    i_tab : forall tid v, tab_get tid (t_tab s) = Some v <->
+              exists k, needs (Rq k) = true /\ q_tid (Rq k) = tid /\ q_name (Rq k) = v /\
+                        In k (t_reg s) /\ ~ In k (t_clean s) /\ ~ In k (t_del s);
+    i_log : forall k o, In (k, o) (t_log s) -> o = Some (q_name (Rq k)) }.
+
+  Ltac tfields := cbn [t_lk t_inuse t_raced t_tab t_ths t_sent t_failed t_queue t_answered t_reg t_clean t_del t_log].
+
+  (* a step that changes nothing but the lock, the map-access marker and thread [j] *)
+  Lemma frame s s' j t' :
+    Inv2 s ->
+    t_tab s' = t_tab s -> t_sent s' = t_sent s -> t_failed s' = t_failed s -> t_queue s' = t_queue s ->
+    t_answered s' = t_answered s -> t_reg s' = t_reg s -> t_clean s' = t_clean s -> t_del s' = t_del s ->
+    t_log s' = t_log s -> t_ths s' = upd j t' (t_ths s) ->
+    (exists t, nth_error (t_ths s) j = Some t) ->
+    (j = 0%nat -> exists cur pc todo, t' = TWriter cur pc todo /\ WF s' cur pc todo) ->
+    (j = 1%nat -> exists rpc held found, t' = TReader rpc held found /\ RF s' rpc held found) ->
+    ((2 <= j)%nat -> exists k d, t' = TPeer k d) ->
+    Inv2 s'.
+  Proof.
+    intros HI Et Es Ef Eq Ea Er Ec Ed El Eths (t0 & Ej) Hw Hr Hp.
+    destruct (i_w _ HI) as (cur & pc & todo & E0 & HW). destruct (i_r _ HI) as (rpc & held & found & E1 & HR).
+    constructor; rewrite ?Et, ?Es, ?Ef, ?Eq, ?Ea, ?Er, ?Ec, ?Ed, ?El, ?Eths.
+    - destruct (Nat.eq_dec j 0) as [->|Hne].
+      + destruct (Hw eq_refl) as (c' & p' & t'' & -> & HW'). exists c', p', t''. split; [eapply nth_upd_same; eauto|exact HW'].
+      + exists cur, pc, todo. split; [now rewrite nth_upd_other|].
+        unfold WF in *. now rewrite Es, Ef, Er, Ec.
+    - destruct (Nat.eq_dec j 1) as [->|Hne].
+      + destruct (Hr eq_refl) as (r' & h' & f' & -> & HR'). exists r', h', f'. split; [eapply nth_upd_same; eauto|exact HR'].
+      + exists rpc, held, found. split; [now rewrite nth_upd_other|].
+        unfold RF in *. now rewrite Ea, Eq, El, Ed.
+    - intros i t Hi Hn. apply nth_upd_cases in Hn. destruct Hn as [(<- & -> & _)|(Hne & Hn)]; [now apply Hp|].
+      eapply (i_p _ HI); eauto.
+    - apply (i_sent _ HI). - apply (i_clean _ HI). - apply (i_ans _ HI). - apply (i_q _ HI). - apply (i_l _ HI).
+    - apply (i_qa _ HI). - apply (i_la _ HI).
+    - apply (i_del _ HI). - apply (i_tab _ HI). - apply (i_log _ HI).
+  Qed.
+
+  Ltac wf_solve := unfold WF, wdoneb, set_ths in *; tfields; cbn [In];
+    try match goal with E : needs (rq reqs _) = _ |- _ => rewrite E in * end;
+    try match goal with E : q_fail (rq reqs _) = _ |- _ => rewrite E in * end;
+    cbn [andb negb Nat.leb] in *;
+    assert (Htt : true = true) by reflexivity;
+    repeat match goal with H : _ /\ _ |- _ => destruct H end;
+    repeat split; intros;
+    try match goal with H : forall k', In k' ?todo -> _, Hin : In _ ?todo |- _ => destruct (H _ Hin) as (? & ? & ? & ?) end;
+    try tauto; try congruence; try (intuition congruence; fail).
+
+  Ltac wframe HI E0 :=
+    eapply (frame _ _ 0%nat); [exact HI|reflexivity|reflexivity|reflexivity|reflexivity|reflexivity|reflexivity|reflexivity|reflexivity|reflexivity|reflexivity|eauto| |intros; discriminate|intros; lia];
+    intros _; do 3 eexists; split; [reflexivity|].
+
+  (* the facts of the other clauses that a writer step leaves alone *)
+  Ltac keep HI := first [ apply (i_sent _ HI) | apply (i_clean _ HI) | apply (i_ans _ HI) | apply (i_q _ HI)
+                        | apply (i_l _ HI) | apply (i_qa _ HI) | apply (i_la _ HI) | apply (i_del _ HI)
+                        | apply (i_tab _ HI) | apply (i_log _ HI) ].
+
+  Lemma reader_kept s s' t' : Inv2 s ->
+    t_ths s' = upd 0 t' (t_ths s) -> t_answered s' = t_answered s -> t_queue s' = t_queue s ->
+    t_log s' = t_log s -> t_del s' = t_del s ->
+    exists rpc held found, nth_error (t_ths s') 1 = Some (TReader rpc held found) /\ RF s' rpc held found.
+  Proof.
+    intros HI Eths Ea Eq El Ed. destruct (i_r _ HI) as (rpc & held & found & E1 & HR).
+    exists rpc, held, found. rewrite Eths. split; [now rewrite nth_upd_other|].
+    unfold RF in *. now rewrite Ea, Eq, El, Ed.
+  Qed.
+
+  Lemma peers_kept s s' j t' : Inv2 s -> (j < 2)%nat -> t_ths s' = upd j t' (t_ths s) ->
+    forall i t, (2 <= i)%nat -> nth_error (t_ths s') i = Some t -> exists k d, t = TPeer k d.
+  Proof.
+    intros HI Hj Eths i t Hi Hn. rewrite Eths in Hn. rewrite nth_upd_other in Hn by lia. eapply (i_p _ HI); eauto.
+  Qed.
+
+  Ltac wcons HI :=
+    constructor;
+    [ idtac
+    | eapply reader_kept; [exact HI|reflexivity|reflexivity|reflexivity|reflexivity|reflexivity]
+    | eapply peers_kept; [exact HI| |reflexivity]; lia
+    | idtac .. ];
+    tfields; try (keep HI).
+
+  (* the table after the writer stored / somebody deleted the entry of request k *)
+  Lemma tab_after_store s k (HI : Inv2 s) :
+    needs (Rq k) = true -> ~ In k (t_clean s) -> ~ In k (t_sent s) ->
+    forall tid v, tab_get tid (tab_set (q_tid (Rq k)) (q_name (Rq k)) (t_tab s)) = Some v <->
+      exists k0, needs (Rq k0) = true /\ q_tid (Rq k0) = tid /\ q_name (Rq k0) = v /\
+                 In k0 (k :: t_reg s) /\ ~ In k0 (t_clean s) /\ ~ In k0 (t_del s).
+  Proof.
+    intros Hn Hc Hs tid v.
+    assert (Hd : ~ In k (t_del s)).
+    { intros H. apply (i_del _ HI) in H. apply (i_la _ HI) in H. apply (i_ans _ HI) in H. tauto. }
+    destruct (Z.eq_dec (q_tid (Rq k)) tid) as [<-|Hne].
+    - rewrite tab_get_set_same. split.
+      + intros H. injection H as <-. exists k. cbn. tauto.
+      + intros (k0 & Hn0 & Ht & Hv & _). assert (k0 = k) by (apply Hdist; auto). subst k0. now rewrite Hv.
+    - rewrite tab_get_set_other by exact Hne. rewrite (i_tab _ HI). split.
+      + intros (k0 & H1 & H2 & H3 & H4 & H5). exists k0. cbn. tauto.
+      + intros (k0 & H1 & H2 & H3 & [->|H4] & H5); [contradiction|]. exists k0. tauto.
+  Qed.
+
+  Lemma tab_after_del s k (HI : Inv2 s) :
+    needs (Rq k) = true ->
+    forall cl dl, ((cl = k :: t_clean s /\ dl = t_del s) \/ (cl = t_clean s /\ dl = k :: t_del s)) ->
+    forall tid v, tab_get tid (tab_del (q_tid (Rq k)) (t_tab s)) = Some v <->
+      exists k0, needs (Rq k0) = true /\ q_tid (Rq k0) = tid /\ q_name (Rq k0) = v /\
+                 In k0 (t_reg s) /\ ~ In k0 cl /\ ~ In k0 dl.
+  Proof.
+    intros Hn cl dl Hcd tid v.
+    destruct (Z.eq_dec (q_tid (Rq k)) tid) as [<-|Hne].
+    - rewrite tab_get_del_same. split; [discriminate|].
+      intros (k0 & Hn0 & Ht & _ & _ & Hc & Hd). assert (k0 = k) by (apply Hdist; auto). subst k0.
+      exfalso. destruct Hcd as [(-> & ->)|(-> & ->)]; cbn in *; tauto.
+    - rewrite tab_get_del_other by exact Hne. rewrite (i_tab _ HI). split.
+      + intros (k0 & H1 & H2 & H3 & H4 & H5 & H6). exists k0. repeat (split; [assumption|]).
+        assert (k0 <> k) by (intros ->; contradiction).
+        destruct Hcd as [(-> & ->)|(-> & ->)]; cbn; intuition congruence.
+      + intros (k0 & H1 & H2 & H3 & H4 & H5 & H6). exists k0. repeat (split; [assumption|]).
+        destruct Hcd as [(-> & ->)|(-> & ->)]; cbn in *; intuition congruence.
+  Qed.
+
+  Lemma writer_step s : Inv2 s -> Inv2 (tstep sk reqs s 0).
+  Proof.
+    intros HI. destruct (i_w _ HI) as (cur & pc & todo & E0 & HW).
+    unfold tstep. rewrite E0. cbn [fetch]. destruct cur as [k|]; [|exact HI]. rewrite req_code_safe by assumption.
+    assert (Hstore : needs (Rq k) = true -> pc = 3%nat ->
+      Inv2 {| t_lk := t_lk s;
+              t_inuse := match t_inuse s with Some h => if Nat.eqb h 0 then None else Some h | None => None end;
+              t_raced := t_raced s; t_tab := tab_set (q_tid (Rq k)) (q_name (Rq k)) (t_tab s);
+              t_ths := upd 0 (advance sk (TWriter (Some k) pc todo)) (t_ths s);
+              t_sent := t_sent s; t_failed := t_failed s; t_queue := t_queue s; t_answered := t_answered s;
+              t_reg := k :: t_reg s; t_clean := t_clean s; t_del := t_del s; t_log := t_log s |}).
+    { intros En ->. wcons HI.
+      - do 3 eexists. split; [eapply nth_upd_same; eauto|]. cbn [advance].
+        assert (forall k', In k' todo -> k' <> k) by (intros k' H ->; unfold WF in HW; tauto).
+        wf_solve; try (apply H in H5; tauto). 
+      - intros k0 Hk0. destruct (i_sent _ HI k0 Hk0). cbn. tauto.
+      - apply tab_after_store; auto; unfold WF, wdoneb in HW; rewrite En in HW; cbn in HW;
+          destruct (q_fail (Rq k)); cbn in HW; intuition congruence. }
+    assert (Hwrite : (if needs (Rq k) then pc = 5%nat else pc = 1%nat) ->
+      Inv2 (if q_fail (Rq k) then
+              {| t_lk := t_lk s; t_inuse := t_inuse s; t_raced := t_raced s; t_tab := t_tab s;
+                 t_ths := upd 0 (advance sk (TWriter (Some k) pc todo)) (t_ths s);
+                 t_sent := t_sent s; t_failed := k :: t_failed s; t_queue := t_queue s; t_answered := t_answered s;
+                 t_reg := t_reg s; t_clean := t_clean s; t_del := t_del s; t_log := t_log s |}
+            else
+              {| t_lk := t_lk s; t_inuse := t_inuse s; t_raced := t_raced s; t_tab := t_tab s;
+                 t_ths := upd 0 (advance sk (TWriter (Some k) pc todo)) (t_ths s);
+                 t_sent := k :: t_sent s; t_failed := t_failed s; t_queue := t_queue s; t_answered := t_answered s;
+                 t_reg := t_reg s; t_clean := t_clean s; t_del := t_del s; t_log := t_log s |})).
+    { intros Hpc.
+      assert (Hk' : forall k', In k' todo -> k' <> k) by (intros k' H ->; unfold WF in HW; tauto).
+      destruct (q_fail (Rq k)) eqn:Efl; wcons HI.
+      - do 3 eexists. split; [eapply nth_upd_same; eauto|]. cbn [advance].
+        destruct (needs (Rq k)) eqn:En; subst pc; wf_solve; try (apply Hk' in H5; tauto).
+      - do 3 eexists. split; [eapply nth_upd_same; eauto|]. cbn [advance].
+        destruct (needs (Rq k)) eqn:En; subst pc; wf_solve; try (apply Hk' in H5; tauto).
+      - intros k0 [<-|Hk0]; [|apply (i_sent _ HI k0 Hk0)]. split; [exact Efl|].
+        intros En. rewrite En in Hpc. subst pc. unfold WF in HW. rewrite En in HW. cbn in HW. tauto.
+      - intros k0 Hk0. destruct (i_ans _ HI k0 Hk0). cbn. tauto. }
+    destruct (needs (Rq k)) eqn:En; [destruct (q_fail (Rq k)) eqn:Efl|].
+    - (* expects a response, the transport fails: register, write, clean up *)
+      rewrite ?En, ?Efl in Hwrite. unfold code_f. destruct pc as [|[|[|[|[|[|[|[|[|[|[|pc]]]]]]]]]]]; cbn [nth_error]; try exact HI; try (destruct pc; exact HI).
+      + wframe HI E0. cbn [advance]. wf_solve.
+      + destruct (t_lk s); [exact HI|]. wframe HI E0. cbn [advance]. wf_solve.
+      + wframe HI E0. cbn [advance]. wf_solve.
+      + apply Hstore; reflexivity.
+      + wframe HI E0. cbn [advance]. wf_solve.
+      + rewrite ?Efl. apply Hwrite; reflexivity.
+      + destruct (t_lk s); [exact HI|]. wframe HI E0. cbn [advance]. wf_solve.
+      + wframe HI E0. cbn [advance]. wf_solve.
+      + (* clean up: delete the entry again *)
+        wcons HI.
+        * do 3 eexists. split; [eapply nth_upd_same; eauto|]. cbn [advance].
+          assert (Hk' : forall k', In k' todo -> k' <> k) by (intros k' H ->; unfold WF in HW; tauto).
+          wf_solve; try (apply Hk' in H5; tauto).
+        * intros k0 [<-|Hk0]; [exact Efl|apply (i_clean _ HI k0 Hk0)].
+        * apply tab_after_del; auto.
+      + wframe HI E0. cbn [advance]. wf_solve.
+      + destruct todo as [|k' rest]; cbn [next_request]; wframe HI E0; wf_solve.
+        all: try (inversion H0; subst; tauto). all: try (apply H1; now right).
+        all: try (destruct (H1 k' (or_introl eq_refl)) as (? & ? & ? & ?); destruct (needs (Rq k')), (q_fail (Rq k')); cbn in *; try discriminate; try tauto; intuition congruence).
+    - (* expects a response, the write succeeds *)
+      rewrite ?En, ?Efl in Hwrite. unfold code_nf. destruct pc as [|[|[|[|[|[|[|pc]]]]]]]; cbn [nth_error]; try exact HI; try (destruct pc; exact HI).
+      + wframe HI E0. cbn [advance]. wf_solve.
+      + destruct (t_lk s); [exact HI|]. wframe HI E0. cbn [advance]. wf_solve.
+      + wframe HI E0. cbn [advance]. wf_solve.
+      + apply Hstore; reflexivity.
+      + wframe HI E0. cbn [advance]. wf_solve.
+      + rewrite ?Efl. apply Hwrite; reflexivity.
+      + destruct todo as [|k' rest]; cbn [next_request]; wframe HI E0; wf_solve.
+        all: try (inversion H0; subst; tauto). all: try (apply H1; now right).
+        all: try (destruct (H1 k' (or_introl eq_refl)) as (? & ? & ? & ?); destruct (needs (Rq k')), (q_fail (Rq k')); cbn in *; try discriminate; try tauto; intuition congruence).
+    - (* expects no response *)
+      rewrite ?En in Hwrite. unfold code_nn. destruct pc as [|[|[|pc]]]; cbn [nth_error]; try exact HI; try (destruct pc; exact HI).
+      + wframe HI E0. cbn [advance]. wf_solve.
+      + rewrite ?Efl. apply Hwrite; reflexivity.
+      + destruct todo as [|k' rest]; cbn [next_request]; wframe HI E0; wf_solve.
+        all: try (inversion H0; subst; tauto). all: try (apply H1; now right).
+        all: try (destruct (H1 k' (or_introl eq_refl)) as (? & ? & ? & ?); destruct (needs (Rq k')), (q_fail (Rq k')); cbn in *; try discriminate; try tauto; intuition congruence).
+  Qed.
+
+  Lemma writer_kept s s' t' : Inv2 s ->
+    t_ths s' = upd 1 t' (t_ths s) -> t_reg s' = t_reg s -> t_sent s' = t_sent s ->
+    t_failed s' = t_failed s -> t_clean s' = t_clean s ->
+    exists cur pc todo, nth_error (t_ths s') 0 = Some (TWriter cur pc todo) /\ WF s' cur pc todo.
+  Proof.
+    intros HI Eths Er Es Ef Ec. destruct (i_w _ HI) as (cur & pc & todo & E0 & HW).
+    exists cur, pc, todo. rewrite Eths. split; [now rewrite nth_upd_other|].
+    unfold WF in *. now rewrite Er, Es, Ef, Ec.
+  Qed.
+
+  Ltac rframe HI E1 :=
+    eapply (frame _ _ 1%nat); [exact HI|reflexivity|reflexivity|reflexivity|reflexivity|reflexivity|reflexivity|reflexivity|reflexivity|reflexivity|reflexivity|eauto|intros; discriminate| |intros; lia];
+    intros _; do 3 eexists; split; [reflexivity|].
+
+  Ltac rcons HI :=
+    constructor;
+    [ eapply writer_kept; [exact HI|reflexivity|reflexivity|reflexivity|reflexivity|reflexivity]
+    | idtac
+    | eapply peers_kept; [exact HI| |reflexivity]; lia
+    | idtac .. ];
+    tfields; try (keep HI).
+
+  Lemma reader_step s : Inv2 s -> Inv2 (tstep sk reqs s 1).
+  Proof.
+    intros HI. destruct (i_r _ HI) as (rpc & held & found & E1 & HR).
+    unfold tstep. rewrite E1. cbn [fetch]. rewrite reader_code_safe by assumption.
+    destruct HR as (Hle & H13 & H45).
+    unfold code_rd. destruct rpc as [|[|[|[|[|[|[|rpc]]]]]]]; cbn [nth_error]; try lia;
+      cbn [advance]; rewrite ?(reader_code_safe sk Hsafe); cbn [code_rd length Nat.eqb].
+    - (* ReadMessage *)
+      destruct (t_queue s) as [|k rest] eqn:Eq; [exact HI|].
+      pose proof (i_q _ HI) as Hq. rewrite Eq in Hq. inversion Hq as [|? ? Hnk Hnd]; subst.
+      destruct (i_qa _ HI k) as (Hka & Hkl); [rewrite Eq; now left|].
+      rcons HI.
+      + do 3 eexists. split; [eapply nth_upd_same; eauto|]. unfold RF. tfields. split; [lia|split; [|intros; lia]]. intros _. exists k. auto.
+      + exact Hnd.
+      + intros k0 Hk0. apply (i_qa _ HI). rewrite Eq. now right.
+    - destruct (t_lk s); [exact HI|]. rframe HI E1. unfold RF in *. tfields. split; [lia|split; [intros _; apply H13; lia|intros; lia]].
+    - rframe HI E1. unfold RF in *. tfields. split; [lia|split; [intros _; apply H13; lia|intros; lia]].
+    - (* the lookup: the entry of the request is there *)
+      destruct H13 as (k & -> & Hka & Hkq & Hkl); [lia|].
+      destruct (i_ans _ HI k Hka) as (Hks & Hkn). destruct (i_sent _ HI k Hks) as (Hkf & Hkr).
+      assert (Hget : tab_get (q_tid (Rq k)) (t_tab s) = Some (q_name (Rq k))).
+      { apply (i_tab _ HI). exists k. split; [exact Hkn|]. split; [reflexivity|]. split; [reflexivity|]. split; [auto|]. split.
+        - intros Hc. apply (i_clean _ HI) in Hc. congruence.
+        - intros Hd. apply (i_del _ HI) in Hd. contradiction. }
+      rewrite Hget. rcons HI.
+      + do 3 eexists. split; [eapply nth_upd_same; eauto|]. unfold RF. tfields. split; [lia|split; [intros; lia|]]. intros _. exists k. cbn.
+        split; [reflexivity|split; [reflexivity|split; [now left|]]].
+        intros Hd. apply (i_del _ HI) in Hd. contradiction.
+      + cbn. constructor; [exact Hkl|apply (i_l _ HI)].
+      + intros k0 Hk0. destruct (i_qa _ HI k0 Hk0) as (H1 & H2). split; [exact H1|]. cbn. intros [<-|H]; contradiction.
+      + intros k0 [<-|Hk0]; [exact Hka|now apply (i_la _ HI)].
+      + intros k0 Hk0. right. now apply (i_del _ HI).
+      + intros k0 o [H|H]; [injection H as <- <-; reflexivity|now apply (i_log _ HI)].
+    - rframe HI E1. unfold RF in *. tfields. split; [lia|split; [intros; lia|intros _; apply H45; lia]].
+    - (* delete the matched entry *)
+      destruct H45 as (k & -> & -> & Hkl & Hkd); [lia|]. cbn [held_of found_of].
+      assert (Hkn : needs (Rq k) = true) by (apply (i_ans _ HI), (i_la _ HI); exact Hkl).
+      rcons HI.
+      + do 3 eexists. split; [eapply nth_upd_same; eauto|]. unfold RF. tfields. split; [lia|split; intros; lia].
+      + intros k0 [<-|Hk0]; [exact Hkl|now apply (i_del _ HI)].
+      + apply tab_after_del; auto.
+    - (* unlock, back to ReadMessage *)
+      rframe HI E1. unfold RF. tfields. split; [lia|split; intros; lia].
+  Qed.
+
+  Lemma peer_step s i : (2 <= i)%nat -> Inv2 s -> Inv2 (tstep sk reqs s i).
+  Proof.
+    intros Hi HI. unfold tstep. destruct (nth_error (t_ths s) i) as [t|] eqn:Ei; [|exact HI].
+    destruct (i_p _ HI i t Hi Ei) as (k & d & ->). cbn [fetch]. destruct d; [exact HI|].
+    destruct (mem k (t_sent s) && needs (Rq k) && negb (mem k (t_answered s))) eqn:Ec; [|exact HI].
+    apply andb_true_iff in Ec. destruct Ec as (Ec & Hna). apply andb_true_iff in Ec. destruct Ec as (Hs & Hn).
+    apply mem_In in Hs. apply negb_true_iff in Hna.
+    assert (Hna' : ~ In k (t_answered s)) by (intros H; apply mem_In in H; congruence).
+    destruct (i_w _ HI) as (cur & pc & todo & E0 & HW). destruct (i_r _ HI) as (rpc & held & found & E1 & HR).
+    constructor; tfields; try (keep HI).
+    - exists cur, pc, todo. split; [rewrite nth_upd_other by lia; exact E0|exact HW].
+    - exists rpc, held, found. split; [rewrite nth_upd_other by lia; exact E1|].
+      unfold RF in *. tfields. destruct HR as (H0 & H13 & H45). split; [exact H0|split; [|exact H45]].
+      intros Hr. destruct (H13 Hr) as (k0 & -> & Hka & Hkq & Hkl). exists k0. split; [reflexivity|].
+      split; [now right|split; [|exact Hkl]]. rewrite in_app_iff. cbn. intros [H|[<-|[]]]; contradiction.
+    - intros j t Hj Hnj. apply nth_upd_cases in Hnj. destruct Hnj as [(<- & -> & _)|(Hne & Hnj)]; [do 2 eexists; reflexivity|].
+      eapply (i_p _ HI); eauto.
+    - intros k0 [<-|Hk0]; [auto|now apply (i_ans _ HI)].
+    - apply NoDup_app_snoc; [apply (i_q _ HI)|]. intros H. apply (i_qa _ HI) in H. tauto.
+    - intros k0 Hk0. rewrite in_app_iff in Hk0. cbn in Hk0. destruct Hk0 as [H|[<-|[]]].
+      + destruct (i_qa _ HI k0 H). split; [now right|assumption].
+      + split; [now left|]. intros H. apply (i_la _ HI) in H. contradiction.
+    - intros k0 Hk0. right. now apply (i_la _ HI).
+  Qed.
+
+  Theorem tstep_inv2 s i : Inv2 s -> Inv2 (tstep sk reqs s i).
+  Proof.
+    intros HI. destruct i as [|[|i]]; [now apply writer_step|now apply reader_step|apply peer_step; [lia|exact HI]].
+  Qed.
+
+  (* ---- reachable states *)
+  Lemma tinit_inv2 order : NoDup order -> Inv2 (tinit reqs [order] 1).
+  Proof.
+    intros Hnd. unfold tinit. cbn [map repeat app].
+    constructor; tfields; cbn [map].
+    - unfold writer_of. destruct order as [|k rest]; cbn [next_request nth_error].
+      + do 3 eexists. split; [reflexivity|]. unfold WF. tfields. split; [reflexivity|split; [constructor|intros ? []]].
+      + do 3 eexists. split; [reflexivity|]. inversion Hnd; subst. unfold WF, wdoneb. tfields. cbn [In].
+        rewrite !andb_false_r. destruct (needs (Rq k)), (q_fail (Rq k)); cbn; repeat split; try tauto; try discriminate; auto.
+    - do 3 eexists. split; [reflexivity|]. unfold RF. repeat split; intros; lia.
+    - intros i t Hi Hn. destruct i as [|[|i]]; try lia. cbn in Hn. apply nth_error_In in Hn.
+      apply in_map_iff in Hn. destruct Hn as (k & <- & _). eauto.
+    - intros ? []. - intros ? []. - intros ? []. - constructor. - constructor. - intros ? []. - intros ? [].
+    - intros ? [].
+    - intros tid v. cbn. split; [discriminate|]. intros (k & _ & _ & _ & [] & _).
+    - intros ? ? [].
+  Qed.
+
+  Lemma trun_inv2 order sched : NoDup order -> Inv2 (trun sk reqs (tinit reqs [order] 1) sched).
+  Proof.
+    intros Hnd. unfold trun. apply srun_invariant; [intros; now apply tstep_inv2|now apply tinit_inv2].
+  Qed.
+End Safe.
+
+(* ------------------------------------------------------------------ witness search *)
+Lemma no_match_sound s : no_match s = true -> exists k, In (k, None) (t_log s).
+Proof.
+  unfold no_match. intros H. apply existsb_exists in H. destruct H as ([k o] & Hin & Ho).
+  destruct o; [discriminate|]. eauto.
+Qed.
+
+Lemma find_cex_sound sk sched : find_cex sk = Some sched ->
+  exists k, In (k, None) (t_log (trun sk cex_reqs (tinit cex_reqs [[0%nat]] 1) sched)).
+Proof. intros H. apply find_first_sound in H. now apply no_match_sound. Qed.
